@@ -4,5 +4,5 @@ set -e
 cd "$(dirname "$0")"
 export CARGO_NET_OFFLINE=true
 (cd lean && lake build)
-(cd harness && { [ -f prebuild.sh ] && bash prebuild.sh; cargo build --offline; cargo build --offline --features pre --target-dir target_pre; })
+(cd harness && { [ -f prebuild.sh ] && bash prebuild.sh; cargo build --offline; cargo build --offline --features pre --target-dir target_pre; cargo build --offline --features uring --target-dir target_uring; })
 echo "setup ok"
